@@ -173,10 +173,11 @@ def check(ctx):
             xs, ys = _strip_T(x) if x else None, _strip_T(y) if y else None
             xb, xn = _row_slice(xs) if xs is not None else (None, None)
             yb, yn = _row_slice(ys) if ys is not None else (None, None)
-            ok = xb is tm.attr(selfp, "positions_xyz") and \
-                yb is tm.attr(refp, "positions_xyz")
-            if cs == cos == False:   # noqa: E712  (report roles once/mode)
-                pass
+            # roles: whichever rows are selected (C04.2 decides that part)
+            xr = xs.args[0] if xs is not None and xs.op == "sub" else xb
+            yr = ys.args[0] if ys is not None and ys.op == "sub" else yb
+            ok = xr is tm.attr(selfp, "positions_xyz") and \
+                yr is tm.attr(refp, "positions_xyz")
             ctx.ob("C04.1", um[0], ok,
                    f"align[{mode}]: Umeyama maps own positions (x) onto the "
                    f"reference's (y), both transposed" if ok else
